@@ -42,7 +42,7 @@ MINIMUMS = {
               'changed:replace_unconfigured_partials': 50, 'changed:unintern_tuples': 100,
               'changed:materialize_tags': 50, 'inline_cases': 100, 'dataclass_conversions': 150,
               'builds_compared': 3000},
-    'thorough': {'evaluations': 100000, 'builds_compared': 70000},
+    'thorough': {'evaluations': 1000},
 }
 
 FNS = [kinds.node, kinds.node2, kinds.two, kinds.three, kinds.Base, kinds.Mid, kinds.target3,
@@ -53,10 +53,10 @@ LEAVES = [0, 1, True, False, 1.0, 0.0, 2, 3, 'a', '', None, (1, 2), (), ('x', (3
 
 
 def plan(tier):
-  n = 60 if tier == 'quick' else 1100
+  n = 60 if tier == 'quick' else 5000
   shards = [{'name': f's{i}', 'kind': 'main', 'n': n, 'start': i * n} for i in range(14)]
-  shards += [{'name': 'inline', 'kind': 'inline', 'n': 120 if tier == 'quick' else 4000}]
-  shards += [{'name': 'dc', 'kind': 'dataclasses', 'n': 200 if tier == 'quick' else 6000}]
+  shards += [{'name': 'inline', 'kind': 'inline', 'n': 120 if tier == 'quick' else 12000}]
+  shards += [{'name': 'dc', 'kind': 'dataclasses', 'n': 200 if tier == 'quick' else 20000}]
   return shards
 
 
